@@ -345,6 +345,73 @@ FIXED_SQL = [
 ]
 
 
+def const_sql_cases():
+    """REQUIRED cases (regression of 2ad5a541a): one argument constant and non-dyadic in every row, the table
+    built by several INSERTs, partitions 1..8, deterministic and threaded: corr / regr_slope / regr_r2 must be
+    NULL and the variances / covariance of the constant column exactly 0 for EVERY partition count"""
+    cases = []
+    ys = [1.0, 2.0, 4.0, 3.0, 7.0, 5.0, 9.0, 8.0, 6.0, 0.5, 1.5, 2.5]
+    n = 0
+    for xv in ("0.1", "0.3", "1.1", "0.7", "1000000000.1"):
+        for split in ([3, 1, 2, 1], [3, 3, 3, 3], [1, 2, 3, 4, 2], [5, 1, 1, 1, 1, 1, 1, 1]):
+            stmts = ["create temp table t (y double, x double)"]
+            k = 0
+            for m in split:
+                stmts.append("insert into t values " + ", ".join("(%r, %s)" % (ys[(k + j) % 12], xv) for j in range(m)))
+                k += m
+            qpos = []
+            for parts in range(1, 9):
+                stmts += ["set partitions to %d" % parts,
+                          "select regr_slope(y, x), corr(y, x), regr_r2(y, x), corr(x, y), regr_r2(x, y), var_pop(x), "
+                          "var_samp(x), stddev_pop(x), stddev_samp(x), covar_pop(y, x), covar_samp(y, x), regr_count(y, x) from t"]
+                qpos.append((parts, len(stmts) - 1))
+            for mode in ("det", "threaded"):
+                c = {"id": "k%d" % n, "mode": mode, "threads": 4, "stmts": stmts, "timeout_s": 60}
+                if mode == "det":
+                    c["partitions"] = 2
+                    c["sched"] = {"kind": ["fifo", "lifo", "random"][n % 3], "seed": 1 + n}
+                cases.append((c, qpos, sum(split)))
+                n += 1
+    return cases
+
+
+CONST_WANT = ["N", "N", "N", "N", "N", "0", "0", "0", "0", "0", "0"]
+
+
+def stage_const(gverif):
+    cases = const_sql_cases()
+    real = common.run_harness(gverif, "sql", [c for c, _, _ in cases], timeout=1200)
+    viol, nq = [], 0
+    for (c, qpos, nrows), r in zip(cases, real):
+        res = r.get("results") or []
+        for parts, p in qpos:
+            nq += 1
+            replay = {"stmts": [x for x in c["stmts"][:p + 1] if not x.startswith("select") and
+                                not (x.startswith("set") and x != c["stmts"][p - 1])] + [c["stmts"][p]],
+                      "config": {k: v for k, v in c.items() if k in ("mode", "threads", "sched")}}
+            e = res[p] if p < len(res) else {"missing": True}
+            if not e.get("ok") or len(e.get("rows", [])) != 1:
+                viol.append({"what": "SQL level (required constant-column case): query failed: %s" % json.dumps(e)[:200],
+                             "replay": replay, "no_input": False})
+                continue
+            row = e["rows"][0]
+            bad = []
+            for cell, want in zip(row[:11], CONST_WANT):
+                if want == "N":
+                    ok = cell == "N"
+                else:
+                    ok = cell[0] == "F" and cell_float(cell) == 0.0
+                if not ok:
+                    bad.append(cell)
+            if row[11] != "I%d" % nrows:
+                bad.append(row[11])
+            if bad:
+                viol.append({"what": "SQL level (required constant-column case): x constant, partitions=%d: got %s, "
+                                     "want NULL for corr/regr_slope/regr_r2 and exactly 0 for the (co)variances" % (parts, row),
+                             "replay": replay, "no_input": False})
+    return {"queries": nq, "violations": viol}
+
+
 def make_state_cases(rng, tier):
     reps = 16 if tier == "quick" else 150
     cases = []
@@ -513,27 +580,6 @@ def known_class(fn, types, rows, engine_out, plan_model, spec, kf_ids):
     if fn == "avg" and t.startswith("dec128") and engine_out.startswith("panic attempt to add with overflow"):
         if abs_sum_rows(rows) >= 2 ** 127 and "avg-dec-i128-overflow" in kf_ids:
             return "avg-dec-i128-overflow"
-    if fn in FLOAT1 + FLOAT2 and t == "f64" and engine_out.startswith("ok F") and spec[0] == "ok" and \
-            "const-column-variance-lost-under-merge" in kf_ids:
-        # a constant non-dyadic column split over several partial states: the merged mean is off by an ulp, later
-        # deviations are not exactly zero (float-level; the exact model says variance 0 / NULL)
-        kind = item_kind(fn, types)
-        live = [r for r in rows if not is_null_row(kind, r)]
-        cols = ([[r[1] for r in live], [r[0] for r in live]] if kind == "pair" else [live])
-        const = [c for c in cols if c and all(v == c[0] for v in c)]
-        got = cell_float(engine_out[3:])
-        if const and len(live) >= 2:
-            if fn in ("corr", "regr_slope", "regr_r2") and spec[1][0] == "N":
-                return "const-column-variance-lost-under-merge"
-            zero = spec[1][0] in ("Q", "SQRT") and spec[1][1] == 0
-            scale = max(abs(cell_float(c[0])) for c in cols if c) ** 2 + 1.0
-            lim = 1e-12 * scale if fn.startswith("stddev") else 1e-24 * scale
-            if zero and fn not in ("corr", "regr_slope", "regr_r2") and abs(got) <= lim:
-                return "const-column-variance-lost-under-merge"
-    if fn == "avg" and t.startswith("dec") and dec_ps(t)[1] < 0 and "avg-decimal-negative-scale" in kf_ids:
-        # the faithful model reproduces the engine's value (|scale| instead of scale)
-        if plan_model is not None and compare(fn, types, engine_out, plan_model, rows, "i")[0]:
-            return "avg-decimal-negative-scale"
     return None
 
 
@@ -870,8 +916,9 @@ def run(ctx):
     st = stage_state(ctx, rng, gbin, gmodel, kf_ids)
     t2 = time.time()
     sq = stage_sql(ctx, rng, gverif, gmodel, kf_ids)
+    ck = stage_const(gverif)
     t3 = time.time()
-    out["violations"] += st["violations"] + sq["violations"]
+    out["violations"] += st["violations"] + sq["violations"] + ck["violations"]
     for kid in sorted(set(st["known"]) | set(sq["known"])):
         reps = st["known"].get(kid, []) + sq["known"].get(kid, [])
         ex = reps[0]
@@ -902,7 +949,7 @@ def run(ctx):
                          "input-dependent conditioning bound (vlib/c07fn.py cond_bound)",
                          "harness/src/sql.rs for the SQL level"],
         "theorems": obligations,
-        "evaluations": st["cases"] + sq["cells"],
+        "evaluations": st["cases"] + sq["cells"] + ck["queries"],
         "distinct_nontrivial": st["distinct"] + sq["distinct"],
         "rule": "state level: every generated (function, input type, chunks, merge plan) is run on the real state functions and "
                 "on the extracted model, plus the sequential run over the same rows; the engine must agree with the model's "
@@ -915,6 +962,7 @@ def run(ctx):
         "state_float_results": st["float_results"], "state_float_results_correctly_rounded_exact": st["float_exact"],
         "sql_cases": sq["cases"], "sql_queries": sq["queries"], "sql_cells_compared": sq["cells"],
         "sql_queries_not_run_after_a_panic": sq["blocked"],
+        "sql_required_constant_column_queries": ck["queries"],
         "sql_float_results": sq["float_results"], "sql_float_results_correctly_rounded_exact": sq["float_exact"],
         "wall_build_and_proofs_s": round(t1 - t0, 1), "wall_state_s": round(t2 - t1, 1), "wall_sql_s": round(t3 - t2, 1),
     }
